@@ -104,3 +104,15 @@ package arg
 //@ extern func (github.com/tencent/goom/arg.Expr).Eval
 //@   assigns nothing
 //@   ensures one_input_no_error: len(input) == 1 ==> result1 == nil && result0 == expr_accepts(self, input[0])
+
+// ---- rendering values for the debug log (C19) ---------------------------------------------------------------------------
+// isZero recurses over arrays and struct fields; it only reads.
+//@ trusted func isZero
+//@   pure
+//@ func SprintV
+//@   props C19
+//@   assume values_as_delivered: arr(params) != textref && len(params) < 0x10000 && forall i int :: 0 <= i && i < len(params) ==> rv_valid(params[i])
+//@   assigns nothing
+//@   invariant loop 1 rendering: -1 <= rangeindex && rangeindex < len(params) && fresh(s) && elems_unchanged_since_entry(reflect.Value) && elems_unchanged_since_entry(string) && elems_unchanged_since_entry(any)
+//@     | && arr(params) != textref && forall i int :: 0 <= i && i < len(params) ==> rv_valid(params[i])
+//@   decreases loop 1 len(params) - rangeindex
